@@ -154,6 +154,7 @@ func (t *TypeDecl) FieldByName(n string) *Field {
 type ImplRef struct {
 	Ptr   bool
 	Iface *TypeDecl
+	Raw   string // if set: rendered verbatim after "@implements " (missing interface, unknown qualifier)
 }
 
 // TypeRef is one syntactic mention of a named type.
